@@ -8,20 +8,45 @@ import struct
 REG64 = ["rax", "rcx", "rdx", "rbx", "rsp", "rbp", "rsi", "rdi", "r8", "r9", "r10", "r11", "r12", "r13", "r14", "r15"]
 REG32 = ["eax", "ecx", "edx", "ebx", "esp", "ebp", "esi", "edi", "r8d", "r9d", "r10d", "r11d", "r12d", "r13d", "r14d", "r15d"]
 OPCODES = {"mov-load": 0x8B, "mov-store": 0x89, "lea": 0x8D, "add-load": 0x03, "cmp-store": 0x39}
+# mnemonic -> (legacy prefix, opcode bytes, REX.W, register file) for the load form `op mem,reg` and the store form `op reg,mem`.
+# The scalar-single SSE mnemonics end in the letters of a segment prefix (ss) and are 5-8 characters long: objdump pads short
+# mnemonics to 6 columns and prints exactly one blank after longer ones.
+LOAD_FORMS = {
+    "mov": (b"", b"\x8b", True, "r"), "lea": (b"", b"\x8d", True, "r"), "add": (b"", b"\x03", True, "r"), "cmp": (b"", b"\x3b", True, "r"),
+    "movss": (b"\xf3", b"\x0f\x10", False, "x"), "addss": (b"\xf3", b"\x0f\x58", False, "x"), "sqrtss": (b"\xf3", b"\x0f\x51", False, "x"),
+    "rsqrtss": (b"\xf3", b"\x0f\x52", False, "x"), "comiss": (b"", b"\x0f\x2f", False, "x"), "ucomiss": (b"", b"\x0f\x2e", False, "x"),
+    "cvtsd2ss": (b"\xf2", b"\x0f\x5a", False, "x"), "movsd": (b"\xf2", b"\x0f\x10", False, "x"), "movaps": (b"", b"\x0f\x28", False, "x"),
+}
+STORE_FORMS = {"mov": (b"", b"\x89", True, "r"), "add": (b"", b"\x01", True, "r"), "cmp": (b"", b"\x39", True, "r"), "movss": (b"\xf3", b"\x0f\x11", False, "x"),
+               "movaps": (b"", b"\x0f\x29", False, "x")}
 
 
-def encode_mem(op, reg, base=None, index=None, scale=1, disp=0, addr32=False, rip=False, riz=False):
-    """reg/base/index: register numbers 0..15 (index != 4). Returns the instruction bytes."""
+def reg_name(mn, n, store=False):
+    """AT&T name of register operand n (0..15) of mnemonic mn."""
+    form = (STORE_FORMS if store else LOAD_FORMS).get(mn) or LOAD_FORMS["mov"]
+    return f"%xmm{n}" if form[3] == "x" else "%" + REG64[n]
+
+
+def encode_mem(op, reg, base=None, index=None, scale=1, disp=0, addr32=False, rip=False, riz=False, mn=None):
+    """reg/base/index: register numbers 0..15 (index != 4). Returns the instruction bytes.  mn: a mnemonic of LOAD_FORMS /
+    STORE_FORMS (the direction is taken from op: '...-load' or '...-store'); None = the opcode table above."""
     assert index != 4
     R = (reg >> 3) & 1
     X = ((index or 0) >> 3) & 1
     B = ((base or 0) >> 3) & 1
-    rex = 0x48 | (R << 2) | (X << 1) | B
     out = bytearray()
     if addr32:
         out.append(0x67)
-    out.append(rex)
-    out.append(OPCODES[op])
+    if mn is None:
+        out.append(0x48 | (R << 2) | (X << 1) | B)
+        out.append(OPCODES[op])
+    else:
+        prefix, opcode, rexw, _ = (STORE_FORMS if op.endswith("store") else LOAD_FORMS)[mn]
+        out += prefix
+        rex = (0x48 if rexw else 0x40) | (R << 2) | (X << 1) | B
+        if rex != 0x40:
+            out.append(rex)  # a REX byte without any bit set would be printed as a `rex` prefix word
+        out += opcode
     r3 = reg & 7
     if rip:
         out.append((0 << 6) | (r3 << 3) | 5)
